@@ -711,6 +711,11 @@ package genetics
 //@ pred analogueFresh(n *network.NNode) = n.PhenotypeAnalogue != nil && fresh(n.PhenotypeAnalogue) && fresh(n.PhenotypeAnalogue.Incoming) && fresh(n.PhenotypeAnalogue.Outgoing)
 //@ pred oldLinksKept() = (forall x *network.Link :: wasAllocated(x) ==> x.InNode == old(x.InNode) && x.OutNode == old(x.OutNode) && x.IsRecurrent == old(x.IsRecurrent) && x.ConnectionWeight == old(x.ConnectionWeight) && x.Trait == old(x.Trait) && sameSlice(x.Params, old(x.Params))) && (forall b :: wasAllocated(b) ==> Mem[float64][b] == old(Mem[float64][b]))
 //@ pred oldNodesKept() = (forall b :: wasAllocated(b) ==> Mem[*network.NNode][b] == old(Mem[*network.NNode][b])) && (forall b :: wasAllocated(b) ==> Mem[*network.Link][b] == old(Mem[*network.Link][b])) && (forall x *network.NNode :: wasAllocated(x) ==> sameSlice(x.Incoming, old(x.Incoming)) && sameSlice(x.Outgoing, old(x.Outgoing)))
+// Degrees: cntEnd(genes, k, n) = number of ENABLED genes among the first k whose link has n at the chosen end (heaps of the pre-state).
+//@ ufunc cntEnd((Array Int Int), Int, Int, (Array Int Bool), (Array Int Int), (Array Int Int), Int) Int
+//@ smtdef (define-fun-rec cntEnd ((c (Array Int Int)) (o Int) (k Int) (EN (Array Int Bool)) (LK (Array Int Int)) (END (Array Int Int)) (n Int)) Int (ite (<= k 0) 0 (+ (cntEnd c o (- k 1) EN LK END n) (ite (and (select EN (select c (+ o (- k 1)))) (= (select END (select LK (select c (+ o (- k 1))))) n)) 1 0))))
+//@ spec outDeg(g *Genome, k int, n *network.NNode) int = cntEnd(old(arrOf(g.Genes)), old(off(g.Genes)), k, old(heapOf(Gene.IsEnabled)), old(heapOf(Gene.Link)), old(heapOf(network.Link.InNode)), n)
+//@ spec inDeg(g *Genome, k int, n *network.NNode) int = cntEnd(old(arrOf(g.Genes)), old(off(g.Genes)), k, old(heapOf(Gene.IsEnabled)), old(heapOf(Gene.Link)), old(heapOf(network.Link.OutNode)), n)
 //@ func (*Genome).Genesis
 //@   props C11 C05
 //@   mode nosafety
@@ -721,15 +726,25 @@ package genetics
 //@   ensures [oldObjectsKept] oldNodesKept()
 //@   ensures [analogues] result1 == nil ==> (forall i :: 0 <= i && i < len(g.Nodes) ==> analogueFresh(g.Nodes[i]) && g.Nodes[i].PhenotypeAnalogue.Id == g.Nodes[i].Id && g.Nodes[i].PhenotypeAnalogue.NeuronType == g.Nodes[i].NeuronType && g.Nodes[i].PhenotypeAnalogue.ActivationType == g.Nodes[i].ActivationType)
 //@   ensures [phenotype] result1 == nil ==> result0 != nil && g.Phenotype == result0
+//@   ensures [degrees] result1 == nil ==> (forall i :: 0 <= i && i < len(g.Nodes) ==> len(g.Nodes[i].PhenotypeAnalogue.Outgoing) == outDeg(g, len(g.Genes), g.Nodes[i]) && len(g.Nodes[i].PhenotypeAnalogue.Incoming) == inDeg(g, len(g.Genes), g.Nodes[i]))
 //@   ensures [nonEmpty] result1 == nil ==> len(g.Nodes) > 0 && len(g.Genes) > 0
 //@   loop 1:
 //@     invariant -1 <= #idx && #idx < len(g.Nodes) && fresh(inList) && fresh(outList) && fresh(allList) && len(outList) <= #idx + 1
-//@     invariant [nodesKept] oldNodesKept()
+//@     invariant [nodeMemKept] forall b :: wasAllocated(b) ==> Mem[*network.NNode][b] == old(Mem[*network.NNode][b])
+//@     invariant [linkMemKept] forall b :: wasAllocated(b) ==> Mem[*network.Link][b] == old(Mem[*network.Link][b])
+//@     invariant [adjacencyKept] forall x *network.NNode :: wasAllocated(x) ==> sameSlice(x.Incoming, old(x.Incoming)) && sameSlice(x.Outgoing, old(x.Outgoing))
+//@     invariant [paInj] forall i, j :: 0 <= i && i <= #idx && 0 <= j && j <= #idx && g.Nodes[i].PhenotypeAnalogue == g.Nodes[j].PhenotypeAnalogue ==> g.Nodes[i] == g.Nodes[j]
+//@     invariant [paEmpty] forall i :: 0 <= i && i <= #idx ==> allocated(g.Nodes[i].PhenotypeAnalogue) && len(g.Nodes[i].PhenotypeAnalogue.Outgoing) == 0 && len(g.Nodes[i].PhenotypeAnalogue.Incoming) == 0
 //@     invariant [pa] forall i :: 0 <= i && i <= #idx ==> analogueFresh(g.Nodes[i]) && g.Nodes[i].PhenotypeAnalogue.Id == g.Nodes[i].Id && g.Nodes[i].PhenotypeAnalogue.NeuronType == g.Nodes[i].NeuronType && g.Nodes[i].PhenotypeAnalogue.ActivationType == g.Nodes[i].ActivationType
 //@   loop 2:
-//@     invariant -1 <= #idx && fresh(inList) && fresh(outList) && fresh(allList) && len(g.Nodes) > 0
-//@     invariant [nodesKept] oldNodesKept()
+//@     invariant -1 <= #idx && #idx < len(g.Genes) && fresh(inList) && fresh(outList) && fresh(allList) && len(g.Nodes) > 0
+//@     invariant [nodeMemKept] forall b :: wasAllocated(b) ==> Mem[*network.NNode][b] == old(Mem[*network.NNode][b])
+//@     invariant [linkMemKept] forall b :: wasAllocated(b) ==> Mem[*network.Link][b] == old(Mem[*network.Link][b])
+//@     invariant [adjacencyKept] forall x *network.NNode :: wasAllocated(x) ==> sameSlice(x.Incoming, old(x.Incoming)) && sameSlice(x.Outgoing, old(x.Outgoing))
 //@     invariant [linksKept] oldLinksKept()
+//@     invariant [paInj] forall i, j :: 0 <= i && i < len(g.Nodes) && 0 <= j && j < len(g.Nodes) && g.Nodes[i].PhenotypeAnalogue == g.Nodes[j].PhenotypeAnalogue ==> g.Nodes[i] == g.Nodes[j]
+//@     invariant [degrees] forall i :: 0 <= i && i < len(g.Nodes) ==> len(g.Nodes[i].PhenotypeAnalogue.Outgoing) == outDeg(g, #idx + 1, g.Nodes[i]) && len(g.Nodes[i].PhenotypeAnalogue.Incoming) == inDeg(g, #idx + 1, g.Nodes[i])
+//@     invariant [genesKept] sameSlice(g.Genes, old(g.Genes)) && unchanged(g.Genes) && sameSlice(g.Nodes, old(g.Nodes)) && (forall x *Gene :: wasAllocated(x) ==> x.IsEnabled == old(x.IsEnabled) && x.Link == old(x.Link))
 //@     invariant [pa] forall i :: 0 <= i && i < len(g.Nodes) ==> analogueFresh(g.Nodes[i]) && g.Nodes[i].PhenotypeAnalogue.Id == g.Nodes[i].Id && g.Nodes[i].PhenotypeAnalogue.NeuronType == g.Nodes[i].NeuronType && g.Nodes[i].PhenotypeAnalogue.ActivationType == g.Nodes[i].ActivationType
 //@   loop 3:
 //@     invariant false
